@@ -703,7 +703,7 @@ func world(c sstcp.Class, prefixSeed, keySeed uint64) (*sstcp.World, error) {
 }
 
 // runCase executes one plan against the real client and server and judges it.
-func runCase(p *casePlan) (r result) {
+func runCaseUnbounded(p *casePlan) (r result) {
 	r.detail = map[string]any{}
 	if p.Op.Kind == opFeedReplay {
 		p.Op.Foreign = false // the recording is always one made under the key in use
